@@ -538,8 +538,10 @@ pub trait MapValidBasic<T: IsNone>: TrustedLen<Item = T> + Sized {
                             if last_value == Some(v.clone()) {
                                 None
                             } else {
+                                // the previous element ends a run only if it was valid
+                                let out = if last_value.is_some() { Some(i) } else { None };
                                 last_value = Some(v);
-                                Some(i)
+                                out
                             }
                         } else {
                             let out = if last_value.is_some() { Some(i) } else { None };
